@@ -100,9 +100,11 @@ impl St {
             let w = if r.coin(3, 4) { 0 } else { r.range(1, 4) as u8 };
             let op = match k {
                 0..=37 => {
-                    let cls = match r.below(10) { 0..=4 => 0, 5..=6 => 1, 7..=8 => 2, _ => 3 };
+                    // 0 Allocator::allocate, 1 typed slice, 2 typed sized, 3 allocate_zeroed,
+                    // 4 dyn try_allocate_layout, 5 dyn try_allocate_slice, 6 typed try_allocate_layout, 7 panicking allocate_layout
+                    let cls = match r.below(16) { 0..=4 => 0, 5..=6 => 1, 7..=8 => 2, 9..=10 => 3, 11 => 4, 12 => 5, 13 => 6, 14 => 7, _ => 0 };
                     match cls {
-                        1 => {
+                        1 | 5 => {
                             let ty = r.below(TY_SLICE.len() as u64) as u8;
                             let (es, ea) = TY_SLICE[ty as usize];
                             let len = match r.below(6) { 0 => 0, 1..=3 => r.range(1, 12) as usize, 4 => r.range(10, 200) as usize, _ => r.range(100, 3000) as usize };
@@ -372,6 +374,18 @@ where
     }
 }
 
+pub fn typed_slice_dyn<A, S>(scope: &BumpScope<'_, A, S>, ty: u8, len: usize) -> Result<usize, AllocError>
+where
+    A: bump_scope::BaseAllocator<S::GuaranteedAllocated>,
+    S: bump_scope::settings::BumpAllocatorSettings,
+{
+    let d: &dyn BumpAllocatorCore = scope;
+    macro_rules! go { ($t:ty) => { d.try_allocate_slice::<$t>(len).map(|p| p.as_ptr() as *mut u8 as usize) }; }
+    match ty {
+        0 => go!(u8), 1 => go!(u16), 2 => go!(u32), 3 => go!(u64), 4 => go!(u128), 5 => go!(T32), _ => go!([u32; 3]),
+    }
+}
+
 /// executes one non-structural operation on the active scope
 pub fn exec<A, S>(st: &mut St, scope: &BumpScope<'_, A, S>, fail: bool, op: &Op)
 where
@@ -389,6 +403,18 @@ where
             let _ = writeln!(st.out, "O A {} {w} {size} {align} {} {cls}", st.h, (*cls == 3) as u8);
             let layout = Layout::from_size_align(*size, *align).unwrap();
             let res: Result<usize, AllocError> = match cls {
+                4 => { let d: &dyn BumpAllocatorCore = scope; d.try_allocate_layout(layout).map(|p| p.as_ptr() as usize) }
+                5 => typed_slice_dyn(scope, *ty, *len),
+                6 => scope.try_allocate_layout(layout).map(|p| p.as_ptr() as usize),
+                7 => {
+                    // the panicking twin; only when the request certainly needs no new chunk
+                    // (an allocation failure in a panicking method aborts the process)
+                    if !fail && scope.stats().current_chunk().map_or(false, |c| c.remaining() >= size + align + 16) {
+                        Ok(scope.allocate_layout(layout).as_ptr() as usize)
+                    } else {
+                        scope.try_allocate_layout(layout).map(|p| p.as_ptr() as usize)
+                    }
+                }
                 1 => typed_slice(scope, *ty, *len),
                 2 => typed_sized(scope, *ty),
                 3 => with_wrapper!(*w, scope, |a| a.allocate_zeroed(layout).map(|p| p.as_ptr() as *mut u8 as usize)),
